@@ -378,9 +378,13 @@ func (e *Engine) applyContract(s *State, ct *Contract, fn *ssa.Function, sig *ty
 		old[k] = v
 	}
 	ctx.OldHeap = old
+	ctx.SnapEpoch = s.Epoch
+	ctx.SnapPending = s.pendingHavoc[:len(s.pendingHavoc):len(s.pendingHavoc)]
 	e.event(s, Event{Kind: "call", What: key, Args: args, ArgTypes: e.argTypesFor(args), Pos: e.P.Pos(in.Pos()), Instr: in, Extra: map[string]string{"contract": "1", "blocking": ct.Flags["blocking"]}})
-	for _, a := range args {
-		e.escape(s, nil, a)
+	if !ct.Flag("noescape") {
+		for _, a := range args {
+			e.escape(s, nil, a)
+		}
 	}
 	res := sig.Results()
 	var rvals []*Val
@@ -620,6 +624,7 @@ func (e *Engine) builtin(s *State, b *ssa.Builtin, c *ssa.CallCommon, args []*Va
 		case *types.Basic:
 			return &Val{L: []string{e.define(s, "slen", "Int", app("slen", args[0].L[0]))}}
 		case *types.Map:
+			e.checkGuardContents(s, args[0], in, false)
 			return &Val{L: []string{e.mapLen(s, u, args[0].L[0])}}
 		case *types.Array:
 			return &Val{L: []string{num(u.Len())}}
@@ -645,6 +650,7 @@ func (e *Engine) builtin(s *State, b *ssa.Builtin, c *ssa.CallCommon, args []*Va
 		return e.builtinCopy(s, c, args)
 	case "delete":
 		mt := c.Args[0].Type().Underlying().(*types.Map)
+		e.checkGuardContents(s, args[0], in, true)
 		e.mapDelete(s, mt, args[0].L[0], args[1])
 		return &Val{}
 	case "close":
